@@ -1,7 +1,9 @@
 (* props/C05.v -- property C05: point and interval scores equal their textbook definitions on every input.
    Statements only; every proof is `exact <lemma>` into coq/proofs/C05.v.  gen_* are the kernels regenerated
    from /repo's current source by tools/py2gallina.py on every run. *)
+From Coq Require Import Reals Qreals.
 From V Require Import lib.Tree gen.Gen_quantile_loss gen.Gen_functions gen.Gen_interval gen.Gen_standard model.C05 proofs.C05 proofs.C05_angular proofs.C05_rmse.
+Open Scope Q_scope.
 
 (* quantile_score's kernel is the pinball loss alpha*max(o-f,0) + (1-alpha)*max(f-o,0), for every rational
    forecast, observation and level (the tie f = o included) *)
